@@ -11,6 +11,7 @@ import (
 	"io"
 	"os"
 	"os/exec"
+	"path/filepath"
 	"regexp"
 	"strings"
 	"testing"
@@ -54,10 +55,14 @@ func (c *chunkReader) Read(p []byte) (int, error) {
 
 var plainSeq int
 
-func plainProcess(in io.Reader) (string, error, string) {
+var plainCfg = renderCfg{pf: styleBase, level: stack.AnyPointer}
+
+func plainProcess(in io.Reader) (string, error, string) { return cfgProcess(in, plainCfg) }
+
+func cfgProcess(in io.Reader, cfg renderCfg) (string, error, string) {
 	// readers are not comparable by content: every call is its own watchdog key
 	plainSeq++
-	r := watchedProcess(fmt.Sprintf("plain#%d", plainSeq), in, renderCfg{pf: styleBase, level: stack.AnyPointer}, false)
+	r := watchedProcess(fmt.Sprintf("plain#%d", plainSeq), in, cfg, false)
 	return r.out, r.err, r.panicked
 }
 
@@ -72,20 +77,25 @@ func linesBytes(lines []rline.Line, idx []int) []byte {
 // expectedCLIOutput: the input with each model dump segment replaced by the
 // rendering obtained by running the same pipeline on that segment alone.
 func expectedCLIOutput(lines []rline.Line, pred []rline.Call, renderCache map[string]string) (out string, heldAtEOF []byte, ok bool) {
+	return expectedCLIOutputCfg(lines, pred, renderCache, plainCfg)
+}
+
+func expectedCLIOutputCfg(lines []rline.Line, pred []rline.Call, renderCache map[string]string, cfg renderCfg) (out string, heldAtEOF []byte, ok bool) {
 	var b strings.Builder
 	for _, p := range pred {
 		b.Write(linesBytes(lines, p.Pass))
 		if p.Gs != nil {
 			seg := linesBytes(lines, p.Dump)
-			r, cached := renderCache[string(seg)]
+			ck := cfg.String() + "\x00" + string(seg)
+			r, cached := renderCache[ck]
 			if !cached {
-				o, err, pn := plainProcess(bytes.NewReader(seg))
+				o, err, pn := cfgProcess(bytes.NewReader(seg), cfg)
 				if pn != "" || (err != nil) {
-					renderCache[string(seg)] = "\x00ERR"
+					renderCache[ck] = "\x00ERR"
 					return "", nil, false
 				}
 				r = o
-				renderCache[string(seg)] = r
+				renderCache[ck] = r
 			}
 			if r == "\x00ERR" {
 				return "", nil, false
@@ -188,6 +198,55 @@ func runCLIStreams(t *testing.T, prop string) {
 			}
 			r.Record(key, true, o)
 			r.Add("traces_validated_against_impl", 1)
+		}
+		// every 7th stream also under the other configurations of the command: aggressive
+		// merging, full paths with colour and rebasing, the banner of a one-goroutine dump
+		// (GOTRACEBACK unset), and -html (the rendering goes to a file: the console output
+		// is then the input without its dumps)
+		if seq%7 == 0 {
+			htmlFile := filepath.Join(os.Getenv("VERIF_SCRATCH"), fmt.Sprintf("cli-%s-%d.html", prop, r.Shard))
+			for ci, cfg := range []renderCfg{
+				{pf: styleBase, level: stack.AnyValue},
+				{pf: styleFull, level: stack.AnyPointer, colour: true, rebase: true},
+				{pf: styleBase, level: stack.AnyPointer, banner: true},
+				{pf: styleBase, level: stack.AnyPointer, html: htmlFile},
+				{pf: styleRel, level: stack.AnyPointer, match: "running|chan", rebase: true},
+			} {
+				wantC, heldC, okC := expectedCLIOutputCfg(lines, pred, cache, cfg)
+				if !okC {
+					continue
+				}
+				for di, mk := range []func() io.Reader{
+					func() io.Reader { return bytes.NewReader(input) },
+					func() io.Reader { return &chunkReader{data: input, chunks: lineLens} },
+				} {
+					key := fmt.Sprintf("cli: %s cfg=%d delivery=%d", name, ci, di)
+					v := r.Check(func() *h.Viol {
+						out, err, p := cfgProcess(mk(), cfg)
+						mkv := func(fp, msg string) *h.Viol {
+							v := &h.Viol{Fingerprint: prop + "/cli/" + fp, Summary: fmt.Sprintf("process() [%s] on %s (delivery %d): %s", cfg, name, di, msg), Key: key, Kind: "cli", Expected: trunc(wantC), Observed: trunc(out)}
+							v.SetInput(input)
+							return v
+						}
+						if p != "" {
+							return mkv("panic", "panic: "+p)
+						}
+						if err != nil {
+							return nil
+						}
+						if out == wantC || (len(heldC) != 0 && out == wantC+string(heldC)) {
+							return nil
+						}
+						return mkv("exit-0-output-differs:other-configuration", "process() returned nil but its output is not the input with each dump replaced by its rendering under the same configuration")
+					})
+					o := "ok"
+					if v != nil {
+						o = v.Fingerprint
+					}
+					r.Record(key, true, o)
+				}
+			}
+			_ = os.Remove(htmlFile)
 		}
 		// a subset through the real binary
 		if pp != "" && seq%61 == 0 {
